@@ -52,6 +52,7 @@ def chunk_encoder_check(ch: Checker, rule: str) -> None:
     raw = f.params[0]
     g = cfg_of(f, prog, exc_edges=False)
     bad = None
+    not_enumerated: Optional[str] = None
     n = 0
     for p in fpaths(g):
         ch.paths += 1
@@ -75,6 +76,12 @@ def chunk_encoder_check(ch: Checker, rule: str) -> None:
                 and len(fl[0].args) == 1 and isinstance(fl[0].args[0], ast.Name):
             listname = fl[0].args[0].id
             elems: List[Tuple[int, ast.AST]] = []
+            # the joined list must start as an empty display and grow by append / extend(display) / += display: anything else
+            # (a comprehension, a generator, a list built elsewhere) is a construction this rule does not enumerate
+            ldefs = [st_.value for i_, st_ in p.stmts() if isinstance(st_, (ast.Assign, ast.AnnAssign)) and st_.value is not None and
+                     any(isinstance(t_, ast.Name) and t_.id == listname for t_ in (st_.targets if isinstance(st_, ast.Assign) else [st_.target]))]
+            if not ldefs or not all(isinstance(v_, (ast.List, ast.Tuple)) and not v_.elts or (isinstance(v_, ast.Call) and attr_chain(v_.func) == 'list' and not v_.args) for v_ in ldefs):
+                not_enumerated = 'the list handed to CRLF.join (%s) is built by %s' % (listname, norm(ldefs[-1])[:60] if ldefs else 'something this function does not define')
             for i, st in p.stmts():
                 for c in walk_no_nested(st):
                     if isinstance(c, ast.Call) and isinstance(c.func, ast.Attribute) and c.func.attr == 'append' and norm(c.func.value) == listname and len(c.args) == 1:
@@ -152,6 +159,10 @@ def chunk_encoder_check(ch: Checker, rule: str) -> None:
                 prob = 'the encoded stream does not end with exactly one terminating chunk "0" CRLF CRLF (tail parts: %s)' % [x[0] if x[0] != 'lit' else x[1] for x in tail]
         if prob:
             bad = (prob, p.describe(24))
+    if not_enumerated is not None:
+        ch.skip(rule, f, 'chunk grammar', '%s: the order of the emitted parts is outside the enumerated constructions (empty list grown by append / extend / +=), the grammar of the encoder is not decided' % not_enumerated)
+        ch.skip(rule, f, 'tiling slices', 'not decided together with the grammar (see above)')
+        return
     ch.check(bad is None and n >= 2, rule, f, 'chunk grammar', 'every return value is (HEX CRLF DATA CRLF)* 0 CRLF CRLF with non-empty data chunks (%d path(s))' % n,
              bad[0] if bad else 'fewer than two paths', witness=bad[1] if bad else None)
     # tiling: for i in range(0, len(raw), step): raw[i:i+step]
@@ -346,14 +357,30 @@ def _key_var(target: ast.AST, it: ast.AST) -> Optional[str]:
     return target.id if isinstance(target, ast.Name) else None
 
 
-def _is_te_compare(e: ast.AST, key: Optional[str]) -> bool:
-    """<key>.lower() == b'transfer-encoding' (either order)"""
+def _is_te_compare(e: ast.AST, key: Optional[str], lowered: Tuple[str, ...] = ()) -> bool:
+    """<key>.lower() == b'transfer-encoding' (either order); `lowered`: locals that hold <key>.lower() in this loop body"""
     if key is not None and isinstance(e, ast.Compare) and len(e.ops) == 1 and isinstance(e.ops[0], ast.Eq):
         sides = [e.left, e.comparators[0]]
         consts = [x for x in sides if isinstance(x, ast.Constant) and x.value == b'transfer-encoding']
-        lowers = [x for x in sides if isinstance(x, ast.Call) and isinstance(x.func, ast.Attribute) and x.func.attr == 'lower' and not x.args and norm(x.func.value) == key]
+        lowers = [x for x in sides if (isinstance(x, ast.Call) and isinstance(x.func, ast.Attribute) and x.func.attr == 'lower' and not x.args and norm(x.func.value) == key) or
+                  (isinstance(x, ast.Name) and x.id in lowered)]
         return len(consts) == 1 and len(lowers) == 1
     return False
+
+
+def _lowered_locals(body: List[ast.stmt], key: Optional[str]) -> Tuple[str, ...]:
+    """locals of a loop body bound (once, at the top level of the body) to <key>.lower()"""
+    if key is None:
+        return ()
+    out = []
+    for s_ in body:
+        if isinstance(s_, (ast.Assign, ast.AnnAssign)) and s_.value is not None:
+            tg = s_.targets[0] if isinstance(s_, ast.Assign) else s_.target
+            v = s_.value
+            if isinstance(tg, ast.Name) and isinstance(v, ast.Call) and isinstance(v.func, ast.Attribute) and v.func.attr == 'lower' and not v.args and norm(v.func.value) == key:
+                out.append(tg.id)
+    stores = [x.id for s_ in body for x in ast.walk(s_) if isinstance(x, ast.Name) and isinstance(x.ctx, ast.Store)]
+    return tuple(n_ for n_ in out if stores.count(n_) == 1)
 
 
 def _lowered_names(c: ast.AST) -> bool:
@@ -398,18 +425,36 @@ def _te_flags(f: FuncInfo) -> set:
     """local flags set by the loop form of the scan: every store is the constant False, or the constant True directly under
     `if <x>.lower() == b'transfer-encoding'` inside a loop over the headers"""
     stores: Dict[str, List[Tuple[ast.AST, bool]]] = {}
-    def visit(body: List[ast.stmt], in_scan_if: bool, in_loop: Optional[str]) -> None:
+    leaky_loops: List[ast.For] = []
+    def visit(body: List[ast.stmt], in_scan_if: bool, in_loop: Optional[str], lowered: Tuple[str, ...] = ()) -> None:
         for s_ in body:
             if isinstance(s_, (ast.Assign, ast.AnnAssign)):
                 tg = s_.targets[0] if isinstance(s_, ast.Assign) else s_.target
-                if isinstance(tg, ast.Name) and s_.value is not None:
+                if isinstance(tg, ast.Name) and s_.value is not None and tg.id not in lowered:
                     stores.setdefault(tg.id, []).append((s_.value, in_scan_if))
             if isinstance(s_, ast.For):
-                visit(s_.body, False, _key_var(s_.target, s_.iter))
+                kv = _key_var(s_.target, s_.iter)
+                low = _lowered_locals(s_.body, kv)
+                # the scan looks at EVERY header name: the loop is left early only from the branch that found Transfer-Encoding
+                def leaks(body2: List[ast.stmt], in_te: bool) -> bool:
+                    for b_ in body2:
+                        if isinstance(b_, (ast.Break, ast.Return)) and not in_te:
+                            return True
+                        if isinstance(b_, ast.If):
+                            if leaks(b_.body, in_te or _is_te_compare(b_.test, kv, low)) or leaks(b_.orelse, in_te):
+                                return True
+                        elif isinstance(b_, (ast.With, ast.Try, ast.While, ast.For)):
+                            for fld in ('body', 'orelse', 'finalbody'):
+                                if leaks(getattr(b_, fld, []) or [], in_te):
+                                    return True
+                    return False
+                if kv is not None and leaks(s_.body, False):
+                    leaky_loops.append(s_)
+                visit(s_.body, False, kv, low)
                 visit(s_.orelse, False, None)
             elif isinstance(s_, ast.If):
-                visit(s_.body, _is_te_compare(s_.test, in_loop), in_loop)
-                visit(s_.orelse, False, in_loop)
+                visit(s_.body, _is_te_compare(s_.test, in_loop, lowered), in_loop, lowered)
+                visit(s_.orelse, False, in_loop, lowered)
             elif isinstance(s_, (ast.While, ast.With, ast.Try)):
                 for fld in ('body', 'orelse', 'finalbody'):
                     visit(getattr(s_, fld, []) or [], False, None)
@@ -420,7 +465,9 @@ def _te_flags(f: FuncInfo) -> set:
     for name, vals in stores.items():
         trues = [(v, ok) for v, ok in vals if isinstance(v, ast.Constant) and v.value is True]
         if trues and all(ok for v, ok in trues) and all(isinstance(v, ast.Constant) and v.value in (True, False) for v, ok in vals):
-            out.add(name)
+            # a flag set inside a loop that can stop before the last header says nothing about the headers not looked at
+            if not any(any(isinstance(x, ast.Name) and x.id == name and isinstance(x.ctx, ast.Store) for x in ast.walk(lp)) for lp in leaky_loops):
+                out.add(name)
     return out
 
 
@@ -446,7 +493,9 @@ def content_length_check(ch: Checker, rule: str) -> None:
             if not pk:
                 bad = ('%s does not return build_http_pkt(...)' % name, p.describe())
                 continue
-            body_arg = pk[0].args[2] if len(pk[0].args) >= 3 else None
+            from .common import bound_args
+            ba = bound_args(prog, f, pk[0])           # by parameter name: positional and keyword spelling are one call
+            body_arg = (ba or {}).get('body') if ba is not None else (pk[0].args[2] if len(pk[0].args) >= 3 else None)
             body_txt = norm(sym.value(body_arg, last[0])) if body_arg is not None else None
             for i, st in p.stmts():
                 if isinstance(st, ast.Assign) and isinstance(st.targets[0], ast.Subscript) and ce.try_eval(f.module, st.targets[0].slice) == b'Content-Length':
